@@ -820,10 +820,42 @@ def is_s(v: t.Any) -> bool:
     return v[0] == "s"
 
 
+def is_l(v: t.Any) -> bool:
+    """a list of string pieces, described by the end of the concatenation of its elements."""
+    return v[0] == "l"
+
+
+L_EMPTY: t.Any = ("l", True, "")
+L_UNKNOWN: t.Any = ("l", False, "")
+
+
+def l_text(v: t.Any) -> t.Any:
+    return ("s", v[1], v[2])
+
+
+def l_add(cur: t.Any, v: t.Any) -> t.Any:
+    """the list value after one more element (a string value, or input) was put at its end."""
+    if v == TOP or cur == TOP:
+        return TOP
+    if is_l(v) or v[0] == "b":
+        return L_UNKNOWN
+    c = concat(l_text(cur), v if is_s(v) else vs(False, ""))
+    return ("l", c[1], c[2]) if is_s(c) else TOP
+
+
+def l_cat(cur: t.Any, other: t.Any) -> t.Any:
+    if cur == TOP or other == TOP:
+        return TOP
+    if not (is_l(cur) and is_l(other)):
+        return L_UNKNOWN
+    c = concat(l_text(cur), l_text(other))
+    return ("l", c[1], c[2]) if is_s(c) else TOP
+
+
 def show(v: t.Any) -> str:
     if v[0] == "b":
         return str(v[1])
-    if v[0] == "s":
+    if v[0] in ("s", "l"):
         return f"`{v[2]}`" if v[1] else ("<text>" if not v[2] else f"<text>`{v[2]}`")
     return "<input>" if v is DATA or v == DATA else "<lost>"
 
@@ -831,7 +863,7 @@ def show(v: t.Any) -> str:
 def concat(a: t.Any, b: t.Any) -> t.Any:
     if a == TOP or b == TOP:
         return TOP
-    if a[0] == "b" or b[0] == "b":
+    if a[0] in ("b", "l") or b[0] in ("b", "l"):
         return TOP
     if a == DATA and b == DATA:
         return DATA
@@ -872,6 +904,8 @@ def truth(v: t.Any) -> bool | None:
         if v[1]:
             return bool(v[2])
         return True if v[2] else None
+    if is_l(v):
+        return True if v[2] else None  # ('' may be the concatenation of [''] as well as of [])
     return None
 
 
@@ -895,6 +929,25 @@ class TailFlow:
         self._memo: dict[t.Any, tuple[t.Any, list[dict[str, t.Any]]]] = {}
         self.analysed: list[t.Any] = []
         self._consts: dict[tuple[int, str], t.Any] = {}
+        self._pieces: dict[str, set[str]] = {}
+
+    # -- a local list of string pieces that is joined into the text later ----------------------------------
+    # Value ("l", exact, tail): a list of strings, described by what the concatenation of its elements ends in (so
+    # `pieces.append(x)` is `content += x`, `"".join(pieces)` is `content`).  Only names that are the argument of a
+    # `.join(...)` somewhere in their module are followed that way (everything else stays DATA: no extra states).
+    def piece_names(self, module: t.Any) -> set[str]:
+        got = self._pieces.get(module.name)
+        if got is None:
+            got = set()
+            for x in ast.walk(module.tree):
+                if isinstance(x, ast.Call) and isinstance(x.func, ast.Attribute) and x.func.attr == "join" and len(x.args) == 1:
+                    a = x.args[0]
+                    if isinstance(a, ast.Name):
+                        got.add(a.id)
+                    elif isinstance(a, (ast.GeneratorExp, ast.ListComp)) and len(a.generators) == 1 and isinstance(a.generators[0].iter, ast.Name):
+                        got.add(a.generators[0].iter.id)
+            self._pieces[module.name] = got
+        return got
 
     # -- functions -----------------------------------------------------
     def run(self, fi: FuncInfo) -> None:
@@ -969,7 +1022,10 @@ class TailFlow:
                     if d is None:
                         if isinstance(a, ast.Name):
                             cur = env2.get(a.id, DATA)
-                            env2[a.id] = vb(val) if not is_s(cur) else (cur if val else vs(True, ""))
+                            if is_l(cur):
+                                env2[a.id] = cur if val else L_EMPTY
+                            else:
+                                env2[a.id] = vb(val) if not is_s(cur) else (cur if val else vs(True, ""))
                         if murk:
                             mk2 = tuple(sorted(set(mk) | {norm(a)[:60]}))
                     out.extend((s, env2, mk2) for s in cfg.succ(n, label))
@@ -1003,17 +1059,22 @@ class TailFlow:
                     if len(tgs) == 1 and isinstance(tgs[0], (ast.Tuple, ast.List)) and isinstance(a.value, (ast.Tuple, ast.List)) and len(tgs[0].elts) == len(a.value.elts) \
                             and not any(isinstance(x, ast.Starred) for x in [*tgs[0].elts, *a.value.elts]):
                         vals = [ev(x, env) for x in a.value.elts]
-                        for tg, v in zip(tgs[0].elts, vals):
-                            self._bind(tg, v, env, ev)
+                        for tg, v, src in zip(tgs[0].elts, vals, a.value.elts):
+                            self._bind(tg, self._kept(tg, v, src, env, hr), env, ev)
                     else:
                         v = ev(a.value, env)
                         for tg in tgs:
-                            self._bind(tg, v, env, ev)
+                            self._bind(tg, self._kept(tg, v, a.value, env, hr), env, ev)
             elif isinstance(a, ast.AugAssign):
                 v = ev(a.value, env)
                 if isinstance(a.target, ast.Name):
                     cur = env.get(a.target.id, DATA)
-                    env[a.target.id] = concat(cur, v) if isinstance(a.op, ast.Add) else (TOP if is_s(cur) else DATA)
+                    if is_l(cur):
+                        env[a.target.id] = l_cat(cur, v) if isinstance(a.op, ast.Add) else L_UNKNOWN
+                    else:
+                        env[a.target.id] = concat(cur, v) if isinstance(a.op, ast.Add) else (TOP if is_s(cur) else DATA)
+                elif isinstance(a.target, ast.Subscript) and isinstance(a.target.value, ast.Name) and is_l(env.get(a.target.value.id, DATA)):
+                    env[a.target.value.id] = L_UNKNOWN  # `pieces[-1] += x`: an element changed in place
                 else:
                     if isinstance(a.target, ast.Attribute) and a.target.attr in self.fields:
                         raise AnalysisError(f"`{norm(a)[:70]}`: a rule part's field is changed after the part was built")
@@ -1034,6 +1095,18 @@ class TailFlow:
             out.extend((s, env, mk) for s in normal)
         return out
 
+    def _kept(self, tg: ast.AST, v: t.Any, src: ast.AST, env: dict[str, t.Any], hr: HelperResolver) -> t.Any:
+        """a list value is followed only in a name that is joined somewhere; a second name for the same list object
+        (`other = pieces`) would let it change behind the analysis: both are given up."""
+        if not is_l(v):
+            return v
+        if isinstance(src, ast.Name) and is_l(env.get(src.id, DATA)):
+            env[src.id] = TOP
+            return TOP
+        if isinstance(tg, ast.Name) and tg.id in self.piece_names(hr.fi.module):
+            return v
+        return DATA
+
     def _bind(self, tg: ast.AST, v: t.Any, env: dict[str, t.Any], ev: t.Callable[[ast.AST, dict[str, t.Any]], t.Any]) -> None:
         if isinstance(tg, ast.Name):
             env[tg.id] = v
@@ -1045,6 +1118,8 @@ class TailFlow:
                 raise AnalysisError(f"`{norm(tg)} = ...`: a rule part's field is changed after the part was built")
             ev(tg.value, env)
         elif isinstance(tg, ast.Subscript):
+            if isinstance(tg.value, ast.Name) and is_l(env.get(tg.value.id, DATA)):
+                env[tg.value.id] = L_UNKNOWN  # `pieces[i] = x`
             ev(tg.value, env)
             ev(tg.slice, env)
 
@@ -1061,7 +1136,7 @@ class TailFlow:
             for tst in tests:
                 while isinstance(tst, ast.UnaryOp) and isinstance(tst.op, ast.Not):
                     tst = tst.operand
-                if isinstance(tst, ast.Name) and truth(st.get(tst.id, DATA)) is None and not is_s(st.get(tst.id, DATA)) and st.get(tst.id, DATA) != TOP and tst.id not in names:
+                if isinstance(tst, ast.Name) and truth(st.get(tst.id, DATA)) is None and not is_s(st.get(tst.id, DATA)) and not is_l(st.get(tst.id, DATA)) and st.get(tst.id, DATA) != TOP and tst.id not in names:
                     names.append(tst.id)
         states = [st]
         for nm in names[:4]:
@@ -1070,7 +1145,7 @@ class TailFlow:
 
     # -- conditions ----------------------------------------------------
     def _tracked(self, e: ast.AST, env: dict[str, t.Any]) -> bool:
-        return any(isinstance(x, ast.Name) and isinstance(x.ctx, ast.Load) and env.get(x.id, DATA)[0] in ("b", "s", "?") for x in ast.walk(e))
+        return any(isinstance(x, ast.Name) and isinstance(x.ctx, ast.Load) and env.get(x.id, DATA)[0] in ("b", "s", "l", "?") for x in ast.walk(e))
 
     def decide(self, e: ast.AST, env: dict[str, t.Any], mk: tuple[str, ...], fn: ast.AST, where: t.Any, hr: HelperResolver) -> tuple[bool | None, bool]:
         """(truth value or None, whether an undecided condition is one over followed values whose form is not read)."""
@@ -1111,7 +1186,7 @@ class TailFlow:
                         return neg, False
                     return None, False
                 for x, y in ((l, e.comparators[0]), (r, e.left)):
-                    if isinstance(y, ast.Constant) and y.value is None and (x[0] in ("b", "s")):
+                    if isinstance(y, ast.Constant) and y.value is None and (x[0] in ("b", "s", "l")):
                         return neg, False  # a flag / string is not None
                 if is_s(l) or is_s(r):
                     return None, False
@@ -1176,6 +1251,8 @@ class TailFlow:
         if isinstance(e, ast.BinOp):
             l, r = rec(e.left), rec(e.right)
             if isinstance(e.op, ast.Add):
+                if is_l(l) or is_l(r):
+                    return l_cat(l, r)
                 return concat(l, r)
             if isinstance(e.op, ast.Mod) and is_s(l) and l[1]:
                 return self._percent(l[2], e.right, r, rec)
@@ -1211,9 +1288,21 @@ class TailFlow:
                 rec(x)
             d, _ = self.decide(e, env, mk, fn, where, hr)
             return DATA if d is None else vb(d)
+        if isinstance(e, (ast.List, ast.Tuple)) and isinstance(e.ctx, ast.Load):
+            acc: t.Any = L_EMPTY
+            for x in e.elts:
+                if isinstance(x, ast.Starred):
+                    v = rec(x.value)
+                    acc = l_cat(acc, v) if is_l(v) or v == TOP else L_UNKNOWN
+                else:
+                    acc = l_add(acc, rec(x))
+            return acc
         if isinstance(e, ast.Subscript):
             base = rec(e.value)
             rec(e.slice)
+            if is_l(base):
+                whole = isinstance(e.slice, ast.Slice) and e.slice.lower is None and e.slice.upper is None and e.slice.step is None
+                return base if whole else DATA
             if is_s(base):
                 return self._slice(base, e.slice)
             return TOP if base == TOP else DATA
@@ -1294,20 +1383,28 @@ class TailFlow:
         return vs(False, "")
 
     def _percent(self, fmt: str, right: ast.AST, rv: t.Any, rec: t.Callable[[ast.AST], t.Any]) -> t.Any:
+        """`fmt % right`: the literal text and the values, in order (a value that is not a followed string is input)."""
         specs = list(_re.finditer(r"%(?:\([^)]*\))?[-#0 +]*\d*(?:\.\d+)?[sdrfi%]", fmt))
         if not specs:
             return vs(True, fmt)
-        last = specs[-1]
-        after = fmt[last.end():]
-        if last.group().endswith("%"):
-            return vs(False, "")
-        if last.group() == "%s":
-            v = rec(right.elts[-1]) if isinstance(right, ast.Tuple) and right.elts else rv
-            if is_s(v):
-                return vs(False, v[2] + after)
+        elts = list(right.elts) if isinstance(right, ast.Tuple) else [right]
+        acc = vs(True, "")
+        pos = k = 0
+        for sp in specs:
+            acc = concat(acc, vs(True, fmt[pos:sp.start()]))
+            pos = sp.end()
+            g = sp.group()
+            if g == "%%":
+                acc = concat(acc, vs(True, "%"))
+                continue
+            v: t.Any = DATA
+            if "(" not in g and k < len(elts) and not isinstance(elts[k], ast.Starred):
+                v = rv if not isinstance(right, ast.Tuple) else rec(elts[k])
+            k += 1
             if v == TOP:
                 return TOP
-        return vs(False, after)
+            acc = concat(acc, v) if g == "%s" and is_s(v) else vs(False, "")
+        return concat(acc, vs(True, fmt[pos:]))
 
     def _call(self, e: ast.Call, env: dict[str, t.Any], mk: tuple[str, ...], fn: ast.AST, where: t.Any, hr: HelperResolver) -> t.Any:
         rec = lambda x: self.ev(x, env, mk, fn, where, hr)  # noqa: E731
@@ -1330,6 +1427,26 @@ class TailFlow:
         if last == "cast" and len(e.args) == 2:
             rec(e.args[0])
             return rec(e.args[1])
+        if isinstance(f, ast.Attribute) and isinstance(f.value, ast.Name) and is_l(env.get(f.value.id, DATA)):
+            nm, cur = f.value.id, env[f.value.id]
+            args = [rec(a.value if isinstance(a, ast.Starred) else a) for a in e.args] + [rec(k.value) for k in e.keywords]
+            plain = not e.keywords and not any(isinstance(a, ast.Starred) for a in e.args)
+            if f.attr == "append" and plain and len(args) == 1:
+                env[nm] = l_add(cur, args[0])
+            elif f.attr == "extend" and plain and len(args) == 1:
+                env[nm] = l_cat(cur, args[0]) if is_l(args[0]) or args[0] == TOP else L_UNKNOWN
+            elif f.attr == "insert" and plain and len(args) == 2 and isinstance(e.args[0], ast.Constant) and e.args[0].value == 0:
+                first = l_add(L_EMPTY, args[1])
+                env[nm] = l_cat(first, cur)
+            elif f.attr == "clear" and not args:
+                env[nm] = L_EMPTY
+            elif f.attr == "copy" and not args:
+                return cur
+            elif f.attr in ("count", "index", "__len__", "__contains__"):
+                return DATA
+            else:
+                env[nm] = L_UNKNOWN  # pop / remove / reverse / sort / ...: the end of the text is no longer known
+            return DATA
         if isinstance(f, ast.Attribute) and not (isinstance(f.value, ast.Name) and f.value.id in ("self", "cls")):
             recv_is_const = isinstance(f.value, (ast.Constant, ast.JoinedStr))
             recv = rec(f.value) if (recv_is_const or isinstance(f.value, ast.Name) and is_s(env.get(f.value.id, DATA)) or isinstance(f.value, (ast.Subscript, ast.BinOp))) else None
@@ -1338,6 +1455,19 @@ class TailFlow:
                 if f.attr in ("endswith", "startswith"):
                     dd, _ = self.decide(e, env, mk, fn, where, hr)
                     return DATA if dd is None else vb(dd)
+                if f.attr == "join" and len(e.args) == 1 and not e.keywords and not isinstance(e.args[0], (ast.List, ast.Tuple)):
+                    a0 = e.args[0]
+                    if isinstance(a0, (ast.GeneratorExp, ast.ListComp)) and len(a0.generators) == 1 and not a0.generators[0].ifs and isinstance(a0.generators[0].target, ast.Name) \
+                            and astq_is_name(a0.elt, a0.generators[0].target.id):
+                        a0 = a0.generators[0].iter  # `"".join(p for p in pieces)`
+                    lv = args[0] if a0 is e.args[0] else rec(a0)
+                    if is_l(lv):
+                        if recv[1] and recv[2] == "":
+                            return l_text(lv)
+                        return vs(False, "")  # a separator between pieces whose boundaries are not followed
+                    if lv == TOP:
+                        return TOP
+                    return vs(False, "")
                 if f.attr == "join" and recv[1] and len(e.args) == 1 and isinstance(e.args[0], (ast.List, ast.Tuple)) and not any(isinstance(x, ast.Starred) for x in e.args[0].elts):
                     acc = vs(True, "")
                     for i, x in enumerate(e.args[0].elts):
@@ -1367,6 +1497,9 @@ class TailFlow:
         if isinstance(f, ast.Name) and f.id == "str" and len(e.args) == 1:
             v = rec(e.args[0])
             return v if is_s(v) or v == TOP else DATA
+        if isinstance(f, ast.Name) and f.id in ("list", "tuple") and len(e.args) == 1 and not e.keywords and f.id not in env:
+            v = rec(e.args[0])
+            return v if is_l(v) or v == TOP else DATA
         r = hr.resolve_info(e)
         if r is not None:
             return self._helper(e, r, env, mk, fn, where, hr)
@@ -1376,38 +1509,55 @@ class TailFlow:
             rec(f)
         if last in PURE_CALLS and isinstance(f, ast.Name):
             return DATA
+        for a in given:
+            if isinstance(a, ast.Name) and is_l(env.get(a.id, DATA)):
+                env[a.id] = TOP  # a callee the analysis cannot look into may change the list
         if any(is_s(v) or v == TOP for v in argv):
             return TOP  # what an unknown callee makes of a followed string is not known
         return DATA
 
     def _format(self, fmt: str, e: ast.Call, rec: t.Callable[[ast.AST], t.Any]) -> t.Any:
+        """`fmt.format(...)`: the literal text and the fields, in order (a field that is not a followed string handed
+        over as it is - conversion, format spec, attribute / index lookup - is input)."""
+        import string
+
+        given: dict[int, t.Any] = {}
+
+        def val(a: ast.AST) -> t.Any:
+            if id(a) not in given:
+                given[id(a)] = rec(a)
+            return given[id(a)]
+
         for a in e.args:
-            rec(a)
+            val(a)
         for k in e.keywords:
-            rec(k.value)
-        i = fmt.rfind("}")
-        if i < 0:
-            return vs(True, fmt)
-        after = fmt[i + 1:]
-        if "{" in after or fmt.count("}}"):
+            val(k.value)
+        try:
+            fields = list(string.Formatter().parse(fmt))
+        except ValueError:
             return vs(False, "")
-        j = fmt.rfind("{")
-        field = fmt[j + 1:i]
-        arg: ast.AST | None = None
-        if field == "":
-            n_auto = fmt.count("{}")
-            arg = e.args[n_auto - 1] if 0 < n_auto <= len(e.args) else None
-        elif field.isdigit():
-            arg = e.args[int(field)] if int(field) < len(e.args) else None
-        elif field.isidentifier():
-            arg = next((k.value for k in e.keywords if k.arg == field), None)
-        if arg is not None:
-            v = rec(arg)
-            if is_s(v):
-                return vs(False, v[2] + after)
+        if any(isinstance(a, ast.Starred) for a in e.args) or any(k.arg is None for k in e.keywords):
+            lit = fields[-1][0] if fields and fields[-1][1] is None else ""
+            return vs(False, lit)
+        acc = vs(True, "")
+        auto = 0
+        for literal, field, spec, conv in fields:
+            acc = concat(acc, vs(True, literal))
+            if field is None:
+                continue
+            arg: ast.AST | None = None
+            if field == "":
+                arg = e.args[auto] if auto < len(e.args) else None
+                auto += 1
+            elif field.isdigit():
+                arg = e.args[int(field)] if int(field) < len(e.args) else None
+            elif field.isidentifier():
+                arg = next((k.value for k in e.keywords if k.arg == field), None)
+            v = val(arg) if arg is not None else DATA
             if v == TOP:
                 return TOP
-        return vs(False, after)
+            acc = concat(acc, v) if is_s(v) and not spec and conv is None else vs(False, "")
+        return acc
 
     def _helper(self, e: ast.Call, r: tuple[t.Any, bool], env: dict[str, t.Any], mk: tuple[str, ...], fn: ast.AST, where: t.Any, hr: HelperResolver) -> t.Any:
         target, skip = r
@@ -1433,12 +1583,47 @@ class TailFlow:
         if skip and hnode.args.args:  # type: ignore[attr-defined]
             henv.pop(hnode.args.args[0].arg, None)  # type: ignore[attr-defined]
         rv, exits = self._function(hnode, hwhere, hhr, henv, mk)
+        for p, a in bound.items():
+            if isinstance(a, ast.Name) and id(a) in given and is_l(env.get(a.id, DATA)) and _changes_list(hnode, p):
+                # the helper changes the caller's list in place: what it holds when the helper is left, if that is one
+                # value on every way out and the parameter is never rebound to another list; not followed otherwise
+                after = {s.get(p, DATA) for s in exits}
+                rebound = any(isinstance(x, ast.Name) and x.id == p and not isinstance(x.ctx, ast.Load) for x in ast.walk(hnode))
+                is_gen = any(isinstance(x, (ast.Yield, ast.YieldFrom)) for x in _own_nodes(hnode))
+                one = next(iter(after)) if len(after) == 1 else TOP
+                env[a.id] = one if is_l(one) and not rebound and not is_gen else TOP
         if not isinstance(target, FuncInfo):
             nl = {nm for x in _own_nodes(hnode) if isinstance(x, ast.Nonlocal) for nm in x.names}
             is_gen = any(isinstance(x, (ast.Yield, ast.YieldFrom)) for x in _own_nodes(hnode))
             for nm in nl:
                 env[nm] = TOP if is_gen or not exits else join_values([s.get(nm, DATA) for s in exits])
         return rv
+
+
+def astq_is_name(e: ast.AST, name: str) -> bool:
+    return isinstance(e, ast.Name) and e.id == name
+
+
+def _changes_list(fn: ast.AST, p: str) -> bool:
+    """the function may change the list its parameter p is bound to (a method other than the reading ones is called on
+    it, an element / slice of it is stored, it is extended in place, or it is handed on)."""
+    READS = ("copy", "count", "index", "__len__", "__contains__", "__iter__")
+    for x in ast.walk(fn):
+        if isinstance(x, ast.Name) and x.id == p and isinstance(x.ctx, ast.Load):
+            continue
+        if isinstance(x, ast.Name) and x.id == p:
+            return True
+    for x in ast.walk(fn):
+        if isinstance(x, ast.Attribute) and astq_is_name(x.value, p) and x.attr not in READS:
+            return True
+        if isinstance(x, ast.Subscript) and astq_is_name(x.value, p) and isinstance(x.ctx, (ast.Store, ast.Del)):
+            return True
+        if isinstance(x, ast.AugAssign) and astq_is_name(x.target, p):
+            return True
+        if isinstance(x, ast.Call) and not (isinstance(x.func, ast.Attribute) and x.func.attr == "join") and not (isinstance(x.func, ast.Name) and x.func.id in PURE_CALLS) \
+                and any(astq_is_name(a.value if isinstance(a, ast.Starred) else a, p) for a in [*x.args, *[k.value for k in x.keywords]]):
+            return True
+    return False
 
 
 def _own_nodes(fn: ast.AST) -> t.Iterator[ast.AST]:
